@@ -243,7 +243,7 @@ func (w *world) endComplete() {
 	for _, in := range w.c.Inputs {
 		total += len(in)
 	}
-	for i := 0; i < total+4 && !w.allClosed() && w.c.Tick > 0; i++ {
+	for i := 0; i < 2*(total+w.c.Par+8) && !w.allClosed() && w.c.Tick > 0; i++ {
 		time.Sleep(w.tick())
 		w.quiesce()
 	}
